@@ -175,9 +175,10 @@ def sched_constants(tier, depth, outdir, tp):
 
 
 def sizes(tier):
+    """(trusting period, number of walks, seed offset) batches -- each batch is one TLC simulation process."""
     if tier == "quick":
-        return dict(n=[(BIG_TP, 22), (SMALL_TP, 4)], depth=60, shards=8)
-    return dict(n=[(BIG_TP, 260), (SMALL_TP, 30)], depth=90, shards=12)
+        return dict(n=[(BIG_TP, 22, 0), (SMALL_TP, 4, 5)], depth=60, shards=8)
+    return dict(n=[(BIG_TP, 70, 0), (BIG_TP, 70, 1), (BIG_TP, 70, 2), (SMALL_TP, 24, 5)], depth=80, shards=12)
 
 
 def gen_schedules(tier, seed, workdir):
@@ -185,21 +186,20 @@ def gen_schedules(tier, seed, workdir):
     d = vk.scratch_spec(SPEC_DIR)
 
     def one(item):
-        tp, n = item
-        outdir = os.path.join(workdir, "sched_%d" % tp)
+        tp, n, off = item
+        outdir = os.path.join(workdir, "sched_%d_%d" % (tp, off))
         os.makedirs(outdir, exist_ok=True)
-        cfg = os.path.join(d, "Sched_%d.cfg" % tp)
+        cfg = os.path.join(d, "Sched_%d_%d.cfg" % (tp, off))
         vk.write_cfg(cfg, "Spec", sched_constants(tier, sz["depth"], outdir, tp))
-        vk.tlc_simulate(d, "Sched_Handshake", cfg, n, sz["depth"] + 1, seed * 11 + (0 if tp == BIG_TP else 5), workers=1,
-                        timeout=1800)
+        vk.tlc_simulate(d, "Sched_Handshake", cfg, n, sz["depth"] + 1, seed * 11 + off, workers=1, timeout=2400)
         out = []
         for i, f in enumerate(sorted(glob.glob(os.path.join(outdir, "*.json")))):
             s = json.load(open(f))
-            s["id"] = "HS%s-%d-%d" % ("" if tp == BIG_TP else "x", seed, i)
+            s["id"] = "HS%s%d-%d-%d" % ("" if tp == BIG_TP else "x", off, seed, i)
             out.append(s)
         return out[:n]
     scheds = []
-    for lst in vk.pmap(one, sz["n"], 2):
+    for lst in vk.pmap(one, sz["n"], 4):
         scheds.extend(lst)
     shutil.rmtree(d, ignore_errors=True)
     if len(scheds) < 3:
@@ -232,22 +232,40 @@ def drive(binary, scheds, workdir, tag, nshards):
     return groups
 
 
+def split_group(lines, maxlines=4000, maxparts=4):
+    """Split the concatenated traces of one group at schedule boundaries into a few files validated in parallel."""
+    if len(lines) <= maxlines:
+        return [lines]
+    parts = max(2, min(maxparts, (len(lines) + maxlines - 1) // maxlines))
+    out = [[] for _ in range(parts)]
+    ix = -1
+    for l in lines:
+        if ix < 0 or json.loads(l)["a"]["a"] == "Init":
+            ix = (ix + 1) % parts
+        out[ix].append(l)
+    return [o for o in out if o]
+
+
 def validate(groups, workdir, tag):
     d = vk.scratch_spec(SPEC_DIR)
     fails, steps = [], 0
+    items = []
+    for (kind, tp), lines in groups.items():
+        for k, part in enumerate(split_group(lines)):
+            items.append((kind, tp, k, part))
 
     def one(item):
-        (kind, tp), lines = item
-        tf = os.path.join(workdir, "%s_%s_%d.ndjson" % (tag, kind, tp))
+        kind, tp, k, lines = item
+        tf = os.path.join(workdir, "%s_%s_%d_%d.ndjson" % (tag, kind, tp, k))
         with open(tf, "w") as f:
             f.writelines(lines)
-        cfg = os.path.join(d, "Trace_%s_%d.cfg" % (kind, tp))
+        cfg = os.path.join(d, "Trace_%s_%d_%d.cfg" % (kind, tp, k))
         vk.write_cfg(cfg, "TraceSpec", dict(TP=tp, TraceFile=tf))
         fl, consumed, out = vk.tlc_trace(d, "Trace_Handshake", cfg)
         if consumed != len(lines):
             raise vk.Infra("trace validation consumed %d of %d lines (tp=%d)\n%s" % (consumed, len(lines), tp, out[-2000:]))
         return fl, len(lines)
-    for fl, n in vk.pmap(one, list(groups.items()), 3):
+    for fl, n in vk.pmap(one, items, 4):
         fails.extend(fl)
         steps += n
     shutil.rmtree(d, ignore_errors=True)
